@@ -1,6 +1,8 @@
 import RockitModel.Proofs.Bridge
 import RockitModel.Model.Der
 import RockitModel.Model.Intg
+import RockitModel.Proofs.Glue
+import RockitModel.Generated.Glue
 import Mathlib.Analysis.Calculus.Deriv.Mul
 import Mathlib.Analysis.Calculus.Deriv.Add
 import Mathlib.Analysis.Calculus.Deriv.Pow
@@ -314,5 +316,24 @@ example : IsChain oChain 0 2 0 := by
   rcases this with h | h <;> subst h <;> simp [Ocp.derSym, oChain, chainOde]
 
 end examples
+
+/-! ### right-hand sides declared on a concatenation of state symbols -/
+section concatenated_declaration
+
+/-- `set_der(vertcat(a, b, …), rhs)`: splitting the right-hand side by the sizes of the symbols hands every state its own rows, whatever
+the sizes (the running-offset loop of `for_all_primitives`) -/
+theorem concatenated_rhs_split {α : Type} (parts : List (List α)) : splitBy (parts.map List.length) parts.flatten = parts :=
+  splitBy_flatten parts
+
+/-- … and the loop as written in `casadi_helpers.for_all_primitives` now (regenerated from the source on every run) is that loop: slice and
+stride are the number of entries of the symbol -/
+theorem source_split_as_expected :
+    Rockit.Generated.glueSizes.filter (fun r => r.1 == "for_all_primitives") =
+      [("for_all_primitives", "stride", "nnz"), ("for_all_primitives", "slice", "nnz")] := by decide
+
+/-- non-vacuity: a 2-vector state followed by a scalar one -/
+example : splitBy [2, 1] [10, 20, 30] = [[10, 20], [30]] := by decide
+
+end concatenated_declaration
 
 end Rockit.C16
